@@ -7,7 +7,7 @@
    (LRecv carries any 16-bit id at any time), any cancellation / close placement.
    [tget s t = Some th]: exchange (thread) t exists with record th; [twid th] its wire id;
    [pc_result (tpc th) = Some (RMsg r)]: it has chosen to return message r (select arm taken or later). *)
-From Mos Require Import Base.Prelude Net.Pipeline Net.PipelineProofs.
+From Mos Require Import Base.Prelude Net.Pipeline Net.PipelineProofs Net.PipelineBuf Net.PipelineBufProofs.
 Local Open Scope N_scope.
 
 (* ids assigned on a connection are q0, q0+1, q0+2, … in order of assignment (for the real q0 = 0:
@@ -199,3 +199,129 @@ Example C05_example_boundary_race :
   | None => False
   end.
 Proof. vm_compute. repeat split; reflexivity. Qed.
+
+(* ====================================================================================================== *)
+(* The callers' payload slices and the octets on the wire (Net/PipelineBuf.v, Net/PipelineBufProofs.v).    *)
+(*                                                                                                        *)
+(* [plb_reachable tcp q0 heap s]: s is reached from a connection whose callers own the slices [heap]       *)
+(* (buffer id |-> octets, each at least 2 octets when used) by ANY finite sequence of the buffer-level     *)
+(* actions: any number of exchanges, ANY NUMBER OF THEM CALLED WITH THE SAME SLICE, any interleaving of     *)
+(* spawn / addQueueC / copy / Write / read loop / select arms / delete / close, any server behaviour.      *)
+(* [plb_tbuf s] exchange |-> its slice; [plb_wire s] (exchange, octets handed to net.Conn.Write).          *)
+(* ====================================================================================================== *)
+
+(* pipelineConn.write as a function of (m, qid): the caller's slice comes back as it went in, and what is handed
+   to net.Conn.Write is (TCP: 2-octet length header, then) the 2 octets of qid followed by m[2:] *)
+Theorem C05_write_private_copy : forall tcp m qid,
+  (2 <= length m)%nat ->
+  snd (plb_write tcp m qid) = m /\
+    fst (plb_write tcp m qid) = plb_frame tcp (plb_id_octets qid ++ skipn 2 m).
+Proof. exact write_fun. Qed.
+Print Assumptions C05_write_private_copy.
+
+(* the caller's payload is never modified: in every reachable state every slice holds the octets it held when
+   the connection was created ("ExchangeContext MUST NOT keep or modify m"), however many exchanges share it *)
+Theorem C05_payload_untouched : forall tcp q0 heap s,
+  q0 <= 65536 -> plb_reachable tcp q0 heap s -> plb_heap s = heap.
+Proof. exact payload_untouched. Qed.
+Print Assumptions C05_payload_untouched.
+
+(* the wire carries assigned_id ++ tail(payload): whatever exchange t handed to net.Conn.Write is the wire id
+   ASSIGNED TO t (one of the connection's assigned ids, <= 65535) followed by the tail of t's own payload, and
+   a server reading the transaction id of those octets reads exactly that id *)
+Theorem C05_wire_bytes : forall tcp q0 heap s t w,
+  q0 <= 65536 -> plb_reachable tcp q0 heap s -> In (t, w) (plb_wire s) ->
+  exists th wid b m,
+    pl_tget (plb_core s) t = Some th /\ pl_twid th = Some wid /\
+    In wid (assigned_ids (plb_core s)) /\ wid <= 65535 /\
+    pl_alookup t (plb_tbuf s) = Some b /\ pl_alookup b heap = Some m /\
+    w = plb_frame tcp (plb_id_octets wid ++ skipn 2 m) /\ plb_wire_id tcp w = wid.
+Proof. exact wire_bytes. Qed.
+Print Assumptions C05_wire_bytes.
+
+(* none duplicated: an exchange writes at most once, and two writes whose octets carry the same transaction id
+   are the same write of the same exchange — the server never sees one id in the queries of two exchanges *)
+Theorem C05_wire_once : forall tcp q0 heap s,
+  q0 <= 65536 -> plb_reachable tcp q0 heap s ->
+  NoDup (map fst (plb_wire s)) /\
+    forall t1 w1 t2 w2, In (t1, w1) (plb_wire s) -> In (t2, w2) (plb_wire s) ->
+    plb_wire_id tcp w1 = plb_wire_id tcp w2 -> t1 = t2 /\ w1 = w2.
+Proof. exact wire_once. Qed.
+Print Assumptions C05_wire_once.
+
+(* none missing: an exchange that is past a successful write (waiting for its reply, or returned / cancelled /
+   closed after it) has its query on the wire — with C05_wire_bytes: under its own assigned id *)
+Theorem C05_wire_complete : forall tcp q0 heap s t th,
+  q0 <= 65536 -> plb_reachable tcp q0 heap s ->
+  pl_tget (plb_core s) t = Some th -> plb_sent th -> exists w, In (t, w) (plb_wire s).
+Proof. exact wire_complete. Qed.
+Print Assumptions C05_wire_complete.
+
+(* the caller's original id is restored: the reply arm reads the id from the shared slice when the reply arrives
+   (r.Header.ID = be16(m)); because no action writes to a slice, that is the id the caller put there — also
+   when other exchanges were handed the same slice *)
+Theorem C05_restored_id : forall tcp q0 heap s t th r b m,
+  q0 <= 65536 -> plb_reachable tcp q0 heap s ->
+  pl_tget (plb_core s) t = Some th -> pc_result (pl_tpc th) = Some (PlRMsg r) ->
+  pl_alookup t (plb_tbuf s) = Some b -> pl_alookup b heap = Some m ->
+  pl_mhid r = plb_be16 m.
+Proof. exact restored_id. Qed.
+Print Assumptions C05_restored_id.
+
+(* the buffer-level system is a refinement of Net/Pipeline.v: all theorems above this block hold for its runs
+   (fresh ids, delivery, no double delivery, late replies), in particular with shared slices *)
+Theorem C05_buf_refines : forall tcp q0 heap s,
+  q0 <= 65536 -> plb_reachable tcp q0 heap s -> reachable tcp q0 (plb_core s).
+Proof. exact buf_refines. Qed.
+Print Assumptions C05_buf_refines.
+
+(* the runs replayed by the correspondence check (kind pipeline_shared: sequential reuse of a slice, then a burst
+   of exchanges that are all inside write at the same time, several of them with the same slice) are schedules
+   of that system *)
+Theorem C05_shared_run_reachable : forall tcp q0 heap warm bs,
+  plb_reachable tcp q0 heap (plb_shared_run tcp q0 heap warm bs).
+Proof. exact shared_run_reachable. Qed.
+Print Assumptions C05_shared_run_reachable.
+
+(* ---------- non-vacuity ---------- *)
+Definition ex_pay (id x : N) : list N := [id / 256; id mod 256; 1; 0; 0; 1; 0; 0; 0; 0; 0; 0; x].
+Definition ex_heap : list (N * list N) := [(0, ex_pay 666 7); (1, ex_pay 5 9)].
+
+(* slice 0 (caller id 666) is used once alone and then by three of four concurrent exchanges, slice 1 (caller id
+   5, equal to a wire id of the burst) by the fourth: ids 0..4 on the wire, each in front of the right tail,
+   every exchange gets a reply with its caller's id, slices unchanged *)
+Example C05_example_shared :
+  plb_observe (plb_shared_run false 0 ex_heap 1 [0; 0; 1; 0]) =
+  ([(PlOMsg 1 true, Some 0); (PlOMsg 2 true, Some 1); (PlOMsg 3 true, Some 2); (PlOMsg 4 true, Some 3);
+    (PlOMsg 5 true, Some 4)], false,
+   [(0, ex_pay 0 7); (1, ex_pay 1 7); (2, ex_pay 2 7); (3, ex_pay 3 9); (4, ex_pay 4 7)],
+   ex_heap).
+Proof. vm_compute. reflexivity. Qed.
+
+(* the same over TCP framing next to the end of the id space *)
+Example C05_example_shared_tcp :
+  plb_observe (plb_shared_run true 65534 ex_heap 0 [0; 0]) =
+  ([(PlOMsg 1 true, Some 65534); (PlOMsg 2 true, Some 65535)], true,
+   [(0, 0 :: 13 :: ex_pay 65534 7); (1, 0 :: 13 :: ex_pay 65535 7)], ex_heap).
+Proof. vm_compute. reflexivity. Qed.
+
+(* Why the copy is necessary.  The design "write the wire id into the caller's slice, send the slice, put the old
+   id back" (plb_ip_step: PlbIpSet / PlbIpWrite / PlbIpRestore instead of copy / write) is indistinguishable for a
+   sequential caller, but with two exchanges on ONE slice this schedule — both inside write together — puts wire
+   id 1 on the wire twice and the assigned id 0 never (exchange 0 waits for ever), leaves the caller's slice with
+   id 0 instead of 666, and exchange 1 returns its reply with id 0 instead of the caller's 666. *)
+Definition ex_ip_schedule : list plb_ip_label :=
+  [PlbIpOther (PlbLSpawn 0); PlbIpOther (PlbLSpawn 0);
+   PlbIpOther (PlbLCore (PlLAdd 0)); PlbIpOther (PlbLCore (PlLAdd 1));
+   PlbIpSet 0; PlbIpSet 1; PlbIpWrite 0; PlbIpWrite 1; PlbIpRestore 0; PlbIpRestore 1;
+   PlbIpOther (PlbLCore (PlLRecv 1 50)); PlbIpOther (PlbLCore PlLLookup); PlbIpOther (PlbLCore PlLSend);
+   PlbIpOther (PlbLTake 1); PlbIpOther (PlbLCore (PlLDelete 1))].
+
+Theorem C05_inplace_write_refuted :
+  exists s, plb_ip_run ex_ip_schedule (plb_init false 0 ex_heap) = Some s /\
+    plb_observe s =
+    ([(PlOWait, Some 0); (PlOMsg 50 false, Some 1)], false,
+     [(0, ex_pay 1 7); (1, ex_pay 1 7)],
+     [(0, ex_pay 0 7); (1, ex_pay 5 9)]).
+Proof. eexists. split; vm_compute; reflexivity. Qed.
+Print Assumptions C05_inplace_write_refuted.
